@@ -3,7 +3,7 @@ import itertools, time
 import z3
 from ..driver import load_mir, REPO, parts
 from ..layout import Layouts
-from ..vm import VM, Machine, Struct, Enum, Seq, Ref, SliceRef, Str, Opaque, UNIT, NONE, SOME, ret, VMError, Unmodelled
+from ..vm import VM, Machine, Struct, Enum, Seq, Ref, SliceRef, Str, Opaque, UNIT, NONE, SOME, OK, ERR, ret, VMError, Unmodelled
 from ..alg import RealAlg, Fl
 from ..mathenv import install_misc
 from ..intrinsics import deref_val
@@ -52,7 +52,7 @@ def run(rep):
     rep.bounds = {'backend': 'HashMap only', 'keys': 'one statistic per item type and value form', 'draws': 'two warm-up and two sampling draws', 'vector length': 2}
     rep.assumptions += ['std::collections::HashMap is a string-keyed map whose iteration order is unspecified: maps created one after the other iterate in opposite orders (insertion / reverse insertion) and every query is run with both assignments', 'Value / ItemType pairs are those a derived Storable can emit (C16)']
     rep.outside += ['Arrow, ndarray and Zarr encodings and files; of the CSV backend only the column-name / element-index mapping of multi-dimensional variables is covered', 'cross-backend agreement', 'store_warmup', 'multi-chain assembly in the sampler']
-    parts(rep, [lambda: buffers(rep, mir, L), lambda: chain_storage(rep, mir, L), lambda: unique_names(rep, mir, L), lambda: csv_index(rep, mir, L)])
+    parts(rep, [lambda: buffers(rep, mir, L), lambda: chain_storage(rep, mir, L), lambda: unique_names(rep, mir, L), lambda: csv_index(rep, mir, L), lambda: trace_finalize(rep, mir, L)])
 
 def buffers(rep, mir, L):
     """HashMapValue::new(t).push(v): no panic and exactly the value(s) appended, for every declared item type and every value form it can receive"""
@@ -201,3 +201,27 @@ def install_strings(vm):
         r = a[0]; s0 = vm.read_at(m, r.cell, r.path); t = deref_val(vm, m, a[1]); vm.write_at(m, r.cell, list(r.path), Str(s0.s + t.s)); return ret(m, UNIT)
     vm.add_model(r'^(std::string::)?String::push_str$', push_str)
     vm.add_model(r'^<std::string::String as Deref>::deref$', lambda vm, m, c, a: ret(m, deref_val(vm, m, a[0])))
+
+
+def trace_finalize(rep, mir, L):
+    """HashMapTraceStorage::finalize / inspect (multi-chain assembly of the HashMap backend): the per-chain results come back in chain order and the
+    first per-chain error - if any chain failed - is handed to the sampler (which turns it into SamplerWaitResult::Err, C13)"""
+    import itertools
+    fin = mir.method('HashMapTraceStorage', 'TraceStorage', 'finalize'); bad = []; n = 0
+    for k in (0, 1, 2, 3):
+        for pat in itertools.product((True, False), repeat=k):
+            h = H(mir, L); vm = h.vm; m = Machine()
+            traces = Seq([OK(Opaque('result %d' % i)) if ok else ERR(Opaque('error %d' % i)) for i, ok in enumerate(pat)])
+            st = L.make('HashMapTraceStorage', {f: Opaque(f) for f in L.fields('HashMapTraceStorage')})
+            outs = vm.run(fin, [st, traces], m); n += len(outs)
+            for (m2, kk, v) in outs:
+                if kk != 'ret' or v.name != 'Ok': bad.append(('finalize panics or fails', pat, str(v)[:100])); continue
+                err, res = v.f[0].f
+                want_err = next((i for i, ok in enumerate(pat) if not ok), None)
+                got_res = [getattr(x, 'tag', None) for x in res.items]
+                if got_res != ['result %d' % i for i, ok in enumerate(pat) if ok]: bad.append(('per-chain results are not returned in chain order', pat, got_res))
+                if want_err is None and err.name != 'None': bad.append(('an error is reported although every chain finalised', pat))
+                if want_err is not None and not (err.name == 'Some' and getattr(err.f[0], 'tag', None) == 'error %d' % want_err): bad.append(('the first per-chain error is not handed on', pat, str(err)[:80]))
+    rep.paths += n
+    if bad: rep.violated('C14.e HashMap trace assembly', 'hashmap.trace_finalize', 'HashMapTraceStorage::finalize: %s' % (bad[0],), model={'problems': [str(b)[:200] for b in bad[:6]]})
+    else: rep.holds('C14.e HashMapTraceStorage::finalize (0-3 chains, every Ok/Err pattern): results in chain order, the first per-chain error handed on, no error otherwise (%d paths)' % n)
